@@ -194,6 +194,13 @@ def gen_session(seed):
                 sess.append(["snip", [["manyranges", g.id()]]])
                 sess.append(["reset"])
                 sess.append(["snip", [["setrange", k_], ["cmprange", k_, g.id()], ["cmprange", k_, g.id()]]])
+            elif rng.chance(0.4):
+                # the program re-bound built-in names - one of the interpreter's, one of the core library's - before the reset;
+                # right after it both must be the originals again
+                i_, j_ = rng.below(8), 8 + rng.below(len(SHADOWABLE) - 8)
+                sess.append(["snip", [["shadow", i_, rng.range(100, 199)], ["shadow", j_, rng.range(100, 199)], ["useshadow", j_, g.id()]]])
+                sess.append(["reset"])
+                sess.append(["snip", [["useshadow", j_, g.id()], ["useshadow", i_, g.id()]]])
             else:
                 sess.append(["reset"])
         elif (p_bad + p_reset + p_exec) * 1000 <= x < (p_bad + p_reset + p_exec + p_pre) * 1000:
